@@ -765,3 +765,23 @@ func init() {
 	mut("C10", "v2 overflow pre-check computes the contract tax without its own renter+host overflow test", true, "sink-discharged|(consensus.State).V2FileContractTax:checked-arith:Add",
 		Edit{"consensus/validation.go", tax, ""})
 }
+
+func init() {
+	// ---- rules added after seed round 3 ----
+	mut("C06", "spending replaces the whole recorded diff (an element created in this block loses Created)", true, "diff-preserved|(consensus.MidState).spendSiacoinElement",
+		Edit{"consensus/application.go", "\tsced := ms.recordSiacoinElement(sce.ID)\n\tsced.SiacoinElement = sce.Copy()\n\tsced.Spent = true\n", "\tsced := ms.recordSiacoinElement(sce.ID)\n\t*sced = SiacoinElementDiff{SiacoinElement: sce.Copy(), Spent: true}\n"})
+	mut("C06", "(benign) spending sets the two fields in the other order", false, "",
+		Edit{"consensus/application.go", "\tsced := ms.recordSiacoinElement(sce.ID)\n\tsced.SiacoinElement = sce.Copy()\n\tsced.Spent = true\n", "\tsced := ms.recordSiacoinElement(sce.ID)\n\tsced.Spent = true\n\tsced.SiacoinElement = sce.Copy()\n"})
+	mut("C20", "after(N) timestamps parsed as unsigned (pre-1970 policies do not parse back)", true, "parse-width|ParseSpendPolicy",
+		Edit{"types/policy.go", "\t\tunix, err = strconv.ParseInt(t, 10, 64)", "\t\tvar u uint64\n\t\tu, err = strconv.ParseUint(t, 10, 64)\n\t\tunix = int64(u)"})
+	clamp := "\t\tif r := float64(expected) / float64(elapsed); r > 25.0/10.0 {\n\t\t\texpected, elapsed = 25, 10\n\t\t} else if r < 10.0/25.0 {\n\t\t\texpected, elapsed = 10, 25\n\t\t}\n"
+	mut("C13", "pre-Oak clamp in integer arithmetic divides by the elapsed time (zero for constant timestamps)", true, "apply-total|div:",
+		Edit{"consensus/application.go", clamp, "\t\tif r := expected * 1000 / elapsed; r > 2500 {\n\t\t\texpected, elapsed = 25, 10\n\t\t} else if r < 400 {\n\t\t\texpected, elapsed = 10, 25\n\t\t}\n"})
+	mut("C13", "(benign) pre-Oak clamp in integer arithmetic guarded against a zero elapsed time", false, "",
+		Edit{"consensus/application.go", clamp, "\t\tif elapsed == 0 {\n\t\t\texpected, elapsed = 25, 10\n\t\t} else if r := float64(expected) / float64(elapsed); r > 25.0/10.0 {\n\t\t\texpected, elapsed = 25, 10\n\t\t} else if r < 10.0/25.0 {\n\t\t\texpected, elapsed = 10, 25\n\t\t}\n"})
+	wr := "\t\tif e.n == len(e.buf) {\n\t\t\te.Flush()\n\t\t}\n\t\tc := copy(e.buf[e.n:], p)"
+	mut("C11", "Encoder.Write hands large payloads to the stream without flushing the staged bytes", true, "buffer-discipline|(types.Encoder).Write",
+		Edit{"types/encoding.go", wr, "\t\tif e.n == len(e.buf) {\n\t\t\te.Flush()\n\t\t}\n\t\tif len(p) >= len(e.buf) && e.err == nil {\n\t\t\t_, e.err = e.w.Write(p)\n\t\t\tbreak\n\t\t}\n\t\tc := copy(e.buf[e.n:], p)"})
+	mut("C11", "(benign) Encoder.Write flushes, then hands large payloads to the stream directly", false, "",
+		Edit{"types/encoding.go", wr, "\t\tif len(p) >= len(e.buf) {\n\t\t\te.Flush()\n\t\t\tif e.err == nil {\n\t\t\t\t_, e.err = e.w.Write(p)\n\t\t\t}\n\t\t\tbreak\n\t\t}\n\t\tif e.n == len(e.buf) {\n\t\t\te.Flush()\n\t\t}\n\t\tc := copy(e.buf[e.n:], p)"})
+}
